@@ -1575,9 +1575,9 @@ func (p *Peer) setNextAddrFromErr(err error, req *Request, source []string) {
 	}
 	p.peerAddr.Set(source[nextNum])
 
-	// invalidate connection cache
+	// invalidate connection cache (the drained channel is reused: replacing it here would race with queries
+	// running in parallel and leak the connections they hand back to the old channel)
 	p.closeConnectionPool()
-	p.cache.connectionPool = make(chan net.Conn, p.lmd.Config.MaxParallelPeerConnections)
 
 	switch peerState {
 	case PeerStatusUp, PeerStatusPending, PeerStatusSyncing:
